@@ -26,10 +26,13 @@ def main(argv=None):
         if a.replay:
             with open(a.replay) as fh:
                 rp = json.load(fh)
-            if not hasattr(mod, "replay"):
-                print("this check has no single-case replay; re-run the check with the same VERIF_SEED")
-                return 2
-            mod.replay(ctx, rp)
+            # a replay file names the violation key, the seed and the tier: every case is a deterministic function of
+            # (seed, tier, TLC enumeration), so the recorded case is re-executed by re-running the check at that seed and
+            # tier and reporting that key only (exit 1 + VIOLATION if it is reproduced, exit 0 if not); evidence untouched
+            ctx = Ctx(pid, rp.get("tier", a.tier), int(rp.get("seed", seed_env())), mod.LEVEL)
+            ctx.only_key = rp["key"]
+            print(f"replaying {rp['key']} (seed {ctx.seed}, tier {ctx.tier}): {rp.get('what', '')[:200]}")
+            mod.run(ctx)
         else:
             mod.run(ctx)
     except MachineryError as e:
